@@ -22,34 +22,46 @@ ASSUMPTIONS = ["bare Structure objects with neither model nor solver are outside
 EXPLANATION = "C19_removes_exactly by mutual structural induction: prune = clean, flag = dead"
 
 
-def dead_solver(rng, depth):
+def dead_solver(rng, depth, pool=None):
     n = hier.Node()
     n.dead = True
-    for _ in range(rng.randint(0, 2)):
-        if depth > 0 and rng.random() < 0.4:
-            n.children.append((dead_solver(rng, depth - 1), {}))
+    for _ in range(rng.randint(0, 3)):
+        if pool and rng.random() < 0.3:
+            n.children.append((rng.choice(pool), {}))        # the same dead object placed again
+        elif depth > 0 and rng.random() < 0.4:
+            n.children.append((dead_solver(rng, depth - 1, pool), {}))
         else:
             n.children.append((hier.Leaf([], [], [], empty=True), {}))
     return n
 
 
-def insert_dead(rng, node, p=0.35):
+def some_dead(rng, pool):
+    """a dead placement: an empty model or a dead solver; 40% of the time an object that is already placed elsewhere"""
+    if pool and rng.random() < 0.4:
+        return rng.choice(pool)
+    obj = dead_solver(rng, 2, pool) if rng.random() < 0.5 else hier.Leaf([], [], [], empty=True)
+    pool.append(obj)
+    return obj
+
+
+def insert_dead(rng, node, p=0.35, pool=None, memo=None):
     """returns a copy of the hierarchy with dead placements inserted; child indices of links/exposures are shifted"""
     if node.kind == "leaf":
         return node
+    pool = [] if pool is None else pool
+    memo = {} if memo is None else memo
     new = hier.Node()
     shift = {}
-    memo = {}
     for i, (child, rho) in enumerate(node.children):
         while rng.random() < p:
-            new.children.append((dead_solver(rng, 2) if rng.random() < 0.5 else hier.Leaf([], [], [], empty=True), {}))
+            new.children.append((some_dead(rng, pool), {}))
         shift[i] = len(new.children)
         key = id(child)
         if key not in memo:
-            memo[key] = insert_dead(rng, child, p)
+            memo[key] = insert_dead(rng, child, p, pool, memo)
         new.children.append((memo[key], dict(rho)))
     while rng.random() < p:
-        new.children.append((dead_solver(rng, 2) if rng.random() < 0.5 else hier.Leaf([], [], [], empty=True), {}))
+        new.children.append((some_dead(rng, pool), {}))
     new.links = [(shift[i], a, shift[j], b) for (i, a, j, b) in node.links]
     new.expose = [(nm, shift[i], a) for (nm, i, a) in node.expose]
     return new
